@@ -51,6 +51,20 @@ func harnessDir(dir string) string {
 
 var registry = []propertySpec{
 	{
+		ID:    "C04",
+		Files: map[string][]string{"": {"zz_verif_lib.go", "zz_verif_c04.go"}},
+		Harnesses: []harnessSpec{
+			{Name: "VerifC04_Single", Quick: tierSpec{Cases: 16 * 3 * 24 * 4}, Thorough: tierSpec{Cases: 16 * 3 * 24 * 4}, Sched: -1,
+				Bounds: "every keyword spelling (15 + none) x lower/UPPER/Capitalised x 23 month spellings + an unknown word x shapes {year, month year, day month year, day year}; day 0..99 in one-digit, two-digit and leading-zero form, year 1..9999 with 1-4 digits (all digits symbolic); separators of 1, 2 and 4 spaces with leading/trailing space"},
+			{Name: "VerifC04_Range", Quick: tierSpec{Cases: 4 * 3 * 3 * 3 * 3}, Thorough: tierSpec{Cases: 4 * 3 * 3 * 3 * 3}, Sched: -1,
+				Bounds: "4 between-words x 3 and-words x 3 letter cases x 3x3 shapes, each side with/without a keyword, digits symbolic"},
+			{Name: "VerifC04_NearMiss", Quick: tierSpec{Cases: 12}, Thorough: tierSpec{Cases: 12}, Sched: -1,
+				Bounds: "12 undocumented forms with symbolic day and year digits"},
+		},
+		Assumptions: []string{"years 1..9999 (year 0 is excluded: the documentation allows it but a zero Year field means 'no year')", "at most four consecutive spaces", "at most one leading zero on the day, none on the year"},
+		Outside:     "years >= 10000, year 0, more than one leading zero, tabs, runs of five or more spaces, non-English month names, dual dates; DateNode phrase forms",
+	},
+	{
 		ID:    "C05",
 		Files: map[string][]string{"": {"zz_verif_lib.go", "zz_verif_c05.go"}},
 		Harnesses: []harnessSpec{
